@@ -18,6 +18,7 @@ RULE = ("program p = i // 16 (4-12 executed events, float/int/Duration clocks); 
         "pause} x driver in {start, bounded, step, mixed}; non-trivial = at least one injected fault was reached and "
         "events were still pending when it fired; distinct = canonical (program, fault set, strategy, driver) hash")
 ASSUMPTIONS = ["WARN_AND_END / WARN_AND_EXIT are outside the statement",
+               "a failing handler raises RuntimeError, KeyError, a BaseException subclass that is not an Exception, or SystemExit",
                "a failing step may return normally or raise a DSOLError that reports the failure; any other escaping exception type is a violation",
                "'as if the failing handler had returned normally' = the handler's actions before the raise took effect, those after it did not"]
 
@@ -54,7 +55,7 @@ def gen_case(rng, tier, i):
     fl = []
     for t in faults:
         nact = len(prog["handlers"].get(t, []))
-        fl.append([t, rng.randint(0, nact)])
+        fl.append([t, rng.randint(0, nact), rng.choice(["exc", "exc", "key", "base", "exit"])])
     strategy = ["log", "warn", "pause"][(i // VARIANTS + v) % 3] if v < 12 else rng.choice(["log", "warn", "pause"])
     driver = rng.choice(["start", "start", "bounded", "step", "mixed"])
     cuts = sorted(rng.sample(range(0, 60), 3))
@@ -78,9 +79,10 @@ def shard_teardown(tier, ctx):
 def _with_faults(prog, faults):
     import copy
     p = copy.deepcopy(prog)
-    for tag, pos in faults:
+    for tag, pos, *rest in faults:
+        kind = rest[0] if rest else "exc"
         acts = p["handlers"].setdefault(tag, [])
-        acts.insert(min(pos, len(acts)), ["raise"])
+        acts.insert(min(pos, len(acts)), ["raise", kind])
     return p
 
 
